@@ -1,5 +1,5 @@
 """C12 — thread pool under the deterministic scheduler."""
-RULE = ('client programs = pool(threads 1..T, queue 0..2) x main/client op lists over {add, add(posting job), tryAdd, tryAdd(posting job), joinJobs, resize 1/2/3} with a '
+RULE = ('client programs = pool(threads 1..T, queue 0..2) x main/client op lists over {add, add(posting job), add(job posting its child with the blocking call; at most one, pools of >= 2 threads never resized to 1), tryAdd, tryAdd(posting job), joinJobs, resize 1/2/3} with a '
         'total op budget, optional final joinJobs, then POOL_free; every program is run under every schedule with <= P preemptions and <= D deviations (delays, waiter '
         'choice on cond_signal), on the real lib/common/pool.c; distinct = distinct (final pool/job state, switch count) outcomes; non-trivial = at least one job and > 2 thread switches')
 SRC = ['harness/c12_pool.c', 'ref/edu_decoder.c']
@@ -22,5 +22,5 @@ def run(vc, tier):
     c.extra['blocking_waits'] = sum(r.stats.get('blocking_waits', 0) for _, r, _ in c.units)
     c.extra['states_note'] = 'states = complete schedules executed (stateless exploration); transitions = scheduling points taken over all schedules'
     c.assumptions = ['sequential consistency between synchronisation points (unsynchronised accesses are decided by ThreadSanitizer inside every explored schedule of the sched-tsan unit; happens-before comes from the modelled mutexes only)',
-                     'posting jobs use tryAdd only, so every program of the grammar is deadlock-free on an ideal bounded pool and any deadlock found is the implementation\'s']
+                     'posting jobs use tryAdd, except at most one job per program that posts with the blocking call on a pool that keeps >= 2 threads (the other threads only run jobs that end), so every program of the grammar is deadlock-free on an ideal bounded pool and any deadlock found is the implementation\'s']
     return c.finish()
